@@ -86,9 +86,31 @@ def comparison_predicates(ctx, R):
                     for o in edge_origin(R, e)[:1]:   # the value tested itself, not what a spliced-in callee computed it from
                         if o[0] == "await" and o[1] in ctx.f.bodies:
                             out.append((o[1], o[3], e, bb))
+                # ... or the verdict is a small crate-local enum (`match compare(..).await { Verdict::UpToDate => Skipped, .. }`)
+                if e.label and e.label[0] == "variant" and len(e.label[2]) == 1 and e.label[1] in ctx.f.adts and ctx.f.adts[e.label[1]]["enum"] and bb in R.dominated_by_edge(e):
+                    if own_only and R.origin(e.src) != R.name:
+                        continue
+                    for o in edge_origin(R, e)[:1]:
+                        if o[0] == "await" and o[1] in ctx.f.bodies:
+                            out.append((o[1], o[3], e, bb))
         if out:
             break
     return out
+
+
+def verdict_paths(ctx, b, edge):
+    """paths of predicate body b on which it gives the verdict that `edge` (in the runner) tests: `true`, or the enum variant of a variant edge"""
+    if edge.label[0] == "bool":
+        return true_paths(b)
+    V = edge.label[2][0]
+    allp = enumerate_paths(b)
+    out = []
+    for p in allp:
+        ro = ret_origins(b, p)
+        if any(o[0] == "agg" and o[2] == V for o in ro) or any(o[0] == "const" and str(o[1]).endswith("::" + V) for o in ro):
+            if feasible_path(b, p):
+                out.append((p, path_facts(b, p), ro))
+    return out, len(allp)
 
 
 def edges_on_await(R, aw, adt_suffix, variant):
@@ -123,13 +145,14 @@ def skip_guard(ctx):
       record with the current state returned true""", "K2", floor=2)
 def no_record_no_skip(ctx):
     R = runner(ctx)
-    cps = {x[0] for x in comparison_predicates(ctx, R)}
+    cpe = {x[0]: x[2] for x in comparison_predicates(ctx, R)}
+    cps = set(cpe)
     ctx.need(cps, "comparison predicate guarding Skipped")
     reads, _ = state_read_fns(ctx)
     for cp in cps:
         b = ctx.f.coroutine_of(cp)
         ctx.need(b, f"async body of {cp}")
-        tps, n = true_paths(b)
+        tps, n = verdict_paths(ctx, b, cpe[cp])
         ctx.need(tps, "a path of the comparison predicate that can return true")
         miss_some, miss_eq = [], []
         for (p, facts, ro) in tps:
@@ -137,7 +160,9 @@ def no_record_no_skip(ctx):
                 miss_some.append(p)
             # the returned value is the awaited result of a local comparison whose receiver derives from the record
             ok = False
-            for o in ro:
+            # (for an enum verdict: the comparison is the awaited bool that was true on this path)
+            cands = list(ro) + [x for (k, v, orig, e) in facts if k == "bool" and v is True for x in orig]
+            for o in cands:
                 if o[0] == "await" and o[1] in ctx.f.bodies and o[1] not in reads:
                     t = o[3].producer[1]
                     at = set()
